@@ -3,6 +3,7 @@ import Sm9.Proofs.FinalExp
 import Sm9.Proofs.MillerNafInstance
 import Sm9.Proofs.MillerNeg
 import Sm9.Proofs.MillerFrobEquivariant
+import Sm9.Proofs.ChainIndepSm9
 /-!
 # C03 — All pairing entry points agree and ignore the projective representative
 
@@ -110,5 +111,27 @@ theorem agreement_mul_q (h : Api.pairing P Q = Api.fast_pairing P Q) :
   subst hgf
   rw [h2, e2]
 end orbit
+
+/-! ## the three entry points agree on every valid input
+
+`pairing()` walks the signed-digit chain, `fast_pairing()` / `G2Prepared` the binary chain; each is the textbook
+Miller function of its chain (C02), and the Miller function does not depend on the chain after the final
+exponentiation (`Sm9.C02.chain_independence`, Proofs/ChainIndep.lean: an argument in Mathlib's coordinate ring of
+the twist — both products of lines generate the same ideal up to verticals, so they differ by a unit, a constant). -/
+/-- **`pairing(P, Q) = fast_pairing(P, Q)`** for every valid `P` and every `Q` of `⟨P2⟩`, any representatives,
+    identities in any form included -/
+theorem pairing_eq_fast_pairing (P : G1) (Q : G2) (hPv : G1.Valid P) (hQv : G2.Valid Q)
+    (k : Nat) (hk : G2.toAff Q = k • G2.toAff (G.one : G2)) : Api.pairing P Q = Api.fast_pairing P Q :=
+  Miller.api_pairing_eq_fast_pairing P Q hPv hQv k hk
+/-- **all three entry points agree** -/
+theorem all_entry_points_agree (P : G1) (Q : G2) (hPv : G1.Valid P) (hQv : G2.Valid Q)
+    (k : Nat) (hk : G2.toAff Q = k • G2.toAff (G.one : G2)) :
+    Api.pairing P Q = Api.fast_pairing P Q ∧
+    (do let pr ← Api.prepare Q; Api.preparedPairing pr P) = Api.pairing P Q :=
+  ⟨Miller.api_pairing_eq_fast_pairing P Q hPv hQv k hk,
+   (Miller.api_prepared_eq_fast P Q).trans (Miller.api_pairing_eq_fast_pairing P Q hPv hQv k hk).symm⟩
+/-- non-vacuity: the generators satisfy the hypotheses (`k = 1`) -/
+example : Api.pairing (G.one : G1) (G.one : G2) = Api.fast_pairing (G.one : G1) (G.one : G2) :=
+  pairing_eq_fast_pairing _ _ G1.one_valid G2.one_valid 1 (one_nsmul _).symm
 
 end Sm9.C03
